@@ -287,6 +287,7 @@ func NewProgram(target *Target) Program {
 		linkname: make(map[string]string), abiSymbol: make(map[string]*AbiSymbol),
 	}
 	prog.abi.Init(uintptr(prog.ptrSize), (*goProgram)(unsafe.Pointer(prog)))
+	prog.abi.Align64 = uintptr(td.ABITypeAlignment(ctx.Int64Type()))
 	return prog
 }
 
